@@ -409,10 +409,14 @@ def execute(run, res):
         if op == "sorted":
             want = canon(list(model.keys()), getattr(cls, "canonical_order", None))
             got = d.sorted_keys()
-            goti = d.sorted_items()
             if list(got) != want:
                 res.violate("C17/sorted_keys/order", stepno, f"got {got!r} want {want!r}")
-            if [list(x) for x in goti] != [[k, model[k]] for k in want]:
+            try:
+                goti = d.sorted_items()
+            except Exception as e:
+                res.violate(f"C17/sorted_items/raised:{type(e).__name__}", stepno, repr(e))
+                goti = None
+            if goti is not None and [list(x) for x in goti] != [[k, model[k]] for k in want]:
                 res.violate("C17/sorted_items/order", stepno, f"got {goti!r}")
             order = list(getattr(cls, "canonical_order", None) or [])
             if any(k in order for k in model) and sum(1 for k in model if k not in order) >= 2:
